@@ -227,6 +227,7 @@ impl Future for GateWait {
                     i.ops[op].waiting_gate = Some(this.g);
                     i.ops[op].gate_polled = true;
                     i.ops[op].suspend_step = rt::steps();
+                    i.ops[op].last_poll_task = rt::current();
                 }
                 false
             }
@@ -388,6 +389,16 @@ fn capture(hs: &Handles, steps: &[Step]) -> Handles {
     (0..hs.len()).map(|o| if need.contains(&o) { hs[o].clone() } else { None }).collect()
 }
 
+/// Releases the handles a closure still holds. Done *inside* the operation (before its end is stamped): dropping a
+/// last owner blocks until that object's work is done, and while it does the enclosing operation is not finished.
+fn release_captured(w: &Arc<World>, hs: &mut Handles) {
+    for o in 0..hs.len() {
+        if let Some(h) = hs[o].take() {
+            release_handle(w, h, o, None);
+        }
+    }
+}
+
 fn do_panic(w: &Arc<World>, op: OpId) -> ! {
     w.with(|i| {
         i.ops[op].panicked = true;
@@ -441,6 +452,7 @@ fn make_job(w: &Arc<World>, id: OpId, body: &[Step], hs: &Handles) -> impl FnOnc
         let _token = token;
         w.begin(id, p);
         run_steps(&w, id, p, &body, &mut hs);
+        release_captured(&w, &mut hs);
         w.end(id, false);
     }
 }
@@ -511,6 +523,7 @@ fn fut_body<'a>(w: Arc<World>, id: OpId, p: &'a mut Payload, body: Vec<Step>, mu
             }
         }
         w.check_inside(id);
+        release_captured(&w, &mut hs);
         w.end(id, false);
         guard.done = true;
         Res { op: id as u32, seen }
@@ -539,6 +552,7 @@ fn sync_call(w: &Arc<World>, h: &ObjH, id: OpId, body: &[Step], hs: &Handles) ->
         let seen = p.log.len() as u32;
         assert!(fa.load(Ordering::SeqCst));
         run_steps(&w2, id, p, body, &mut chs);
+        release_captured(&w2, &mut chs);
         w2.end(id, false);
         Res { op: id as u32, seen }
     });
@@ -963,6 +977,7 @@ impl CallerEnv {
                             w2.begin(id2, p);
                             let seen = p.log.len() as u32;
                             run_steps(&w2, id2, p, body, &mut chs);
+                            release_captured(&w2, &mut chs);
                             w2.end(id2, false);
                             Res { op: id2 as u32, seen }
                         })
@@ -1048,6 +1063,7 @@ impl CallerEnv {
                         w2.begin(id2, p);
                         let seen = p.log.len() as u32;
                         run_steps(&w2, id2, p, &body2, &mut chs);
+                        release_captured(&w2, &mut chs);
                         w2.end(id2, false);
                         Res { op: id2 as u32, seen }
                     });
